@@ -172,6 +172,14 @@ func (m *Manager) Allocate(ctx context.Context, cni *daemon.CNI, req *AllocReque
 	default:
 		sort.Sort(ByPriority(m.networkInterfaces))
 	}
+	for _, request := range req.ResourceRequests {
+		if r, ok := request.(*LocalIPRequest); ok && r.NetworkInterfaceID != "" {
+			// the pod already uses an interface: ask the initialized interfaces first whatever the policy,
+			// otherwise an empty slot takes the request and the pod gets a second address
+			sort.Sort(ByPriority(m.networkInterfaces))
+			break
+		}
+	}
 
 	var err error
 	for _, request := range req.ResourceRequests {
